@@ -47,14 +47,6 @@ def roleOf? : Term → Option Role
 
 def U32MAX : Nat := 4294967295
 
-/-- AS_PATH bytes as `Attribute::decode` guarantees them: whole segments of type 1..4. -/
-def asPathWf : List Nat → Bool
-  | [] => true
-  | [_] => false
-  | t :: l :: rest => 1 ≤ t && t ≤ 4 && l * 4 ≤ rest.length && asPathWf (rest.drop (l * 4))
-termination_by bs => bs.length
-decreasing_by simp [List.length_drop]; omega
-
 def srcOf? (id : Nat) : Term → Option Src
   | .list [.atom "s", a, r, role, lim] => do
       let addr ← asNat? a
@@ -132,11 +124,48 @@ def opOf? (srcs : List Src) (attrs : List Attrs) : Term → Option Op
   | .list [.atom "edef", f] => do pure (.endDeferral (← famOf? f))
   | _ => none
 
+/-- the family a source is used with by an announcement / withdrawal -/
+def srcFamOf : Op → Option (Nat × Fam)
+  | .insert s f .. => some (s.id, f)
+  | .remove s f .. => some (s.id, f)
+  | _ => none
+
+/-- one `Arc<Source>` belongs to one (session, family): every source is used with a single family -/
+def oneFamPerSrc : List Op → List (Nat × Fam) → Bool
+  | [], _ => true
+  | op :: ops, seen =>
+      match srcFamOf op with
+      | none => oneFamPerSrc ops seen
+      | some (s, f) =>
+          match seen.find? (fun x => x.1 = s) with
+          | some (_, f') => f' == f && oneFamPerSrc ops seen
+          | none => oneFamPerSrc ops ((s, f) :: seen)
+
+/-- bytes are bytes, AS_PATH bytes are whole segments (what `Attribute::decode` guarantees) -/
+def attrWfB (a : Attrs) : Bool :=
+  (match a.asPath with | some b => asPathWf b && decide (b.length < U64) | none => true) &&
+  (match a.comm with | some b => b.all (· < 256) | none => true) &&
+  (match a.ext with | some b => b.all (· < 256) | none => true)
+
+/-- sources and attribute sets are referred to by their position in the case (`Arc` identity) -/
+def opRefB (c : Case) : Op → Bool
+  | .insert s _ _ _ _ a _ _ => decide (c.srcs[s.id]? = some s) && decide (c.attrs[a.id]? = some a) && attrWfB a
+  | .remove s _ _ _ => decide (c.srcs[s.id]? = some s)
+  -- a purge of peer `a` may only be handed the limit counter of a session of that peer
+  | .dropStale a _ (some s) | .dropLlgr a _ (some s) | .dropNoLlgr a _ (some s) =>
+      (match c.srcs[s]? with | some src => src.addr == a | none => false)
+  | _ => true
+
+/-- The well-formedness both sides demand of a case (everything else is `(bad-case)`); it always
+    holds for the references `opOf?` resolves, and rejects a source used with two families. -/
+def goodB (c : Case) : Bool := c.ops.all (opRefB c) && oneFamPerSrc c.ops []
+
 def caseOf? : Term → Option Case
   | .list [.atom "case", .list (.atom "srcs" :: ss), .list (.atom "attrs" :: as), .list (.atom "ops" :: os)] => do
       let srcs ← mapIdx? srcOf? ss 0
       let attrs ← mapIdx? attrsOf? as 0
       let ops ← os.mapM (opOf? srcs attrs)
+      guardO (goodB { srcs, attrs, ops })
       pure { srcs, attrs, ops }
   | _ => none
 
